@@ -212,7 +212,7 @@ void Interp::run(const Case &c) {
     for (size_t i = 0; i < c.ops.size(); ++i) {
         const Op &op = c.ops[i];
         if (op.code.size() && op.code[0] == 'f' && op.code != "fbuild" && op.code != "fmut" && op.code != "fsub" && op.code != "fsubx") continue;   // file-model ops
-        if (op.code == "poke" || op.code == "field" || op.code == "trunc" || op.code == "truncmeta" || op.code == "bytes" || op.code == "cfg" || op.code == "vendor") continue;
+        if (op.code == "poke" || op.code == "field" || op.code == "trunc" || op.code == "truncmeta" || op.code == "bytes" || op.code == "cfg" || op.code == "vendor" || op.code == "sweeptrunc" || op.code == "sweeppoke") continue;
         if (L) L->before(*this, op, i);
         Outcome out = exec(op);
         ++opsRun;
